@@ -27,9 +27,17 @@ func loGetPath(env string, defpath string) string {
 	return path
 }
 
+// loPackage returns the table of the package library. It is kept in the
+// registry: the global variable "package" belongs to the script, which may hide
+// or replace it (Lua 5.1 reaches the table through the environment of its C
+// functions).
+func loPackage(L *LState) LValue {
+	return L.GetField(L.Get(RegistryIndex), "_PACKAGE")
+}
+
 func loFindFile(L *LState, name, pname string) (string, string) {
 	name = strings.Replace(name, ".", string(os.PathSeparator), -1)
-	lv := L.GetField(L.GetField(L.Get(EnvironIndex), "package"), pname)
+	lv := L.GetField(loPackage(L), pname)
 	path, ok := lv.(LString)
 	if !ok {
 		L.RaiseError("package.%s must be a string", pname)
@@ -48,6 +56,7 @@ func loFindFile(L *LState, name, pname string) (string, string) {
 
 func OpenPackage(L *LState) int {
 	packagemod := L.RegisterModule(LoadLibName, loFuncs)
+	L.SetField(L.Get(RegistryIndex), "_PACKAGE", packagemod)
 
 	L.SetField(packagemod, "preload", L.NewTable())
 
@@ -79,7 +88,7 @@ var loFuncs = map[string]LGFunction{
 
 func loLoaderPreload(L *LState) int {
 	name := L.CheckString(1)
-	preload := L.GetField(L.GetField(L.Get(EnvironIndex), "package"), "preload")
+	preload := L.GetField(loPackage(L), "preload")
 	if _, ok := preload.(*LTable); !ok {
 		L.RaiseError("package.preload must be a table")
 	}
